@@ -36,6 +36,13 @@ Full statement / proved / missing
 * `C18_struct_nested`   — `C18_struct` for struct TERMS: nested structs, pointers to structs, containers of structs,
                          embedded parents at any depth, embedded fields that are not the parent: all four construction
                          forms give back the same struct value.
+* declared defaults of every value shape (`value=>` integers, floats, strings, booleans, undef, arrays, string-keyed
+                         hashes, on fields of the matching Go type or pointers to it): `Equals` of the default is
+                         modelled (`litEq`: floats by `==`, hashes regardless of order); the struct theorems hold under
+                         `DefaultExact` (a value that counts as the default IS the default), automatic for exact
+                         literals (`C18_default_exact`); without it the syntactic statement is false
+                         (`C18_default_zero_sign`, `C18_defaults_restored_full_fails`) although the struct that comes back
+                         is deeply equal — full statement kept as `C18_struct_nested_full` (not proved).
 * `C18_struct`         — the attribute-list form (tags `name=>`, `value=>` = declared default): `px.New(T, InitHash(wrap s))`, `px.New(T,
                          full hash)` (named dispatch → PositionalFromHash cuts trailing defaults → setValues puts them
                          back), `px.New(T, attribute values…)` and the same without the trailing defaults (positional
@@ -139,9 +146,29 @@ theorem C18_struct (r32 : Nat → Nat) (hr : R32Exact r32) (fvs : List (Field ×
 
 /-- the trailing values that `PositionalFromHash` cuts off because they equal the attribute's default are exactly the
     ones `setValues` puts back (for ANY attribute list and value list of the same length) -/
-theorem C18_defaults_restored (attrs : List Field) (vals : List Val) (h : vals.length = attrs.length) :
+theorem C18_defaults_restored (attrs : List Field) (vals : List Val) (h : vals.length = attrs.length)
+    (hx : ∀ a ∈ attrs, a.exactDflt = true) :
     restore attrs (trimDefaults attrs vals) = vals :=
-  restore_trim attrs vals h
+  restore_trim attrs vals h fun av hav => defaultExact_of_exact (hx av.1 (zipFV_mem_fst attrs vals av hav)) av.2
+
+/-- the statement without the exactness of the declared defaults: FALSE since declared defaults may be floats and
+    hashes (for integer / string / boolean defaults — the only ones before — `exactDflt` always holds) -/
+def C18_defaults_restored_full : Prop :=
+  ∀ (attrs : List Field) (vals : List Val), vals.length = attrs.length → restore attrs (trimDefaults attrs vals) = vals
+
+/-- `value=>0.0` on a float field that holds -0.0: `Equals` is `==`, the value is cut as "the default" and +0.0 is put
+    back.  reflect.DeepEqual compares floats with `==` too, so the struct that comes back IS deeply equal (`goEq`) — the
+    property holds, the syntactic statement does not -/
+theorem C18_default_zero_sign :
+    restore [{ name := "a", ty := .float 64, dflt := some (.flt 0) }]
+      (trimDefaults [{ name := "a", ty := .float 64, dflt := some (.flt 0) }] [.flt (2 ^ 63)]) = [.flt 0] ∧
+    goEq (.st [.flt 0]) (.st [.flt (2 ^ 63)]) = true := ⟨by rfl, by decide⟩
+
+theorem C18_defaults_restored_full_fails : ¬ C18_defaults_restored_full := by
+  intro h
+  have := h [{ name := "a", ty := .float 64, dflt := some (.flt 0) }] [.flt (2 ^ 63)] rfl
+  rw [C18_default_zero_sign.1] at this
+  simp at this
 
 /-- non-vacuity: `struct{A []uint8; B *int8 "name=>'f_b'"; C map[string]int; P uint16 "value=>8080"; D *string}` with
     P at its declared default and D nil: both are omitted from the init hash and cut from the value slice, and come back;
@@ -154,7 +181,8 @@ example : (sampleStruct.map (·.1.name)).Nodup := by decide
 example : ∀ fv ∈ sampleStruct, FieldOK fv := by
   intro fv h
   simp only [sampleStruct, List.mem_cons, List.not_mem_nil, or_false] at h
-  rcases h with rfl | rfl | rfl | rfl | rfl <;> exact ⟨by decide, by decide, by decide, by decide⟩
+  rcases h with rfl | rfl | rfl | rfl | rfl <;>
+    exact ⟨by decide, by decide, by decide, by decide, defaultExact_of_exact (by decide) _⟩
 example : initHash sampleStruct =
     [(.str "a", .arr [.int 255]), (.str "c", .hsh [(.str "k", .int 7)]), (.str "f_b", .int (-1))] := by rfl
 example : trimDefaults (attrOrder id (sampleStruct.map (·.1))) ((attrOrder (·.1) sampleStruct).map fieldVal) =
@@ -224,7 +252,7 @@ theorem C18_promotion (S : GoTy) (v : GoVal) (hs : isStruct S = true) (hv : hasT
     a pointer to one, a slice / map of them … are inside by `C18_struct_value` -/
 def StructOK (S : GoTy) (v : GoVal) : Prop :=
   isStruct S = true ∧ structWF S = true ∧ hasType S v = true ∧
-  ∀ fv ∈ objFVs S v, RtOK false fv.1.ty fv.2 = true ∧ TaOK false fv.1.ty fv.2 = true
+  ∀ fv ∈ objFVs S v, RtOK false fv.1.ty fv.2 = true ∧ TaOK false fv.1.ty fv.2 = true ∧ DefaultExact fv.1 (fieldVal fv)
 
 /-- **structs as terms** (nested structs, pointers to structs, slices and maps of structs, embedded parents at any depth,
     embedded fields that are not the parent, tags `name=>` / `value=>`): the object type derived from the struct type
@@ -247,10 +275,55 @@ theorem C18_struct_nested (r32 : Nat → Nat) (hr : R32Exact r32) (S : GoTy) (v 
   have hf : ∀ fv ∈ objFVs S v, FieldOK fv := by
     intro fv hfv
     have hm : fv.1 ∈ attrsOf S := by rw [← e1]; exact List.mem_map.mpr ⟨fv, hfv, rfl⟩
-    exact ⟨hw.2 fv.1 hm, ht fv hfv, (hok fv hfv).1, (hok fv hfv).2⟩
+    exact ⟨hw.2 fv.1 hm, ht fv hfv, (hok fv hfv).1, (hok fv hfv).2.1, (hok fv hfv).2.2⟩
   obtain ⟨c1, c2, c3, c4⟩ := C18_struct r32 hr (objFVs S v) hn hf
   rw [e1, e2] at c1 c2 c3 c4
   simp only [newNamedS, newPosS, c1, c2, c3, c4, Option.map_some, rebuild_flat S v hs hv, and_self]
+
+/-- the struct theorems for deep equality instead of identity, WITHOUT `DefaultExact` — the property as stated (what
+    comes back is `reflect.DeepEqual` to the original: `goEq`).  Not proved: it needs `reflectTo` / `rebuild` to respect
+    `goEq`; the only inputs it adds are fields holding -0.0 / +0.0 against a declared default of the other sign and map
+    fields against hash defaults written in another order (`C18_default_zero_sign`; both streams are generated and agree
+    with the implementation). -/
+def C18_struct_nested_full : Prop :=
+  ∀ (r32 : Nat → Nat), R32Exact r32 → ∀ (S : GoTy) (v : GoVal),
+    isStruct S = true → structWF S = true → hasType S v = true →
+    (∀ fv ∈ objFVs S v, RtOK false fv.1.ty fv.2 = true ∧ TaOK false fv.1.ty fv.2 = true) →
+    ∃ back, newNamedS r32 S (initHash (objFVs S v)) = some back ∧ goEq back v = true
+
+/-- `DefaultExact` is automatic for every declared default that is an exact literal (`Lit.exact`: integers, strings,
+    booleans, undef, floats other than ±0, arrays of those, hashes of one entry) -/
+theorem C18_default_exact (f : Field) (v : Val) (hx : f.exactDflt = true) : DefaultExact f v :=
+  defaultExact_of_exact hx v
+
+/-- non-vacuity for the declared defaults of every value shape:
+    `struct{ F float64 "value=>1.5"; L []int16 "value=>[1,2]"; M map[string]bool "value=>{'k'=>true}"; P *string
+    "value=>undef"; Q *[2]uint8 "value=>[7,8]"; Z float32 "value=>0.0" }` with F, L, M, P, Q at their defaults (all cut
+    from the init hash) and Z = 2.5 (its default 0.0 is not exact, but the value is not a zero) -/
+def sampleDefaults : GoTy :=
+  .scons "F" { dflt := some (.flt 0x3FF8000000000000) } (.float 64)
+  (.scons "L" { dflt := some (.acons (.int 1) (.acons (.int 2) .anil)) } (.slice (.int 16))
+  (.scons "M" { dflt := some (.hcons (.str "k") (.bool true) .hnil) } (.map .string .bool)
+  (.scons "P" { dflt := some .undef } (.ptr .string)
+  (.scons "Q" { dflt := some (.acons (.int 7) (.acons (.int 8) .anil)) } (.ptr (.array 2 (.uint 8)))
+  (.scons "Z" { dflt := some (.flt 0) } (.float 32) .snil)))))
+def sampleDefaultsVal : GoVal :=
+  .st [.flt 0x3FF8000000000000, .slice [.int 1, .int 2], .map [(.str "k", .bool true)], .nil, .ptr (.arr [.int 7, .int 8]),
+       .flt 0x4004000000000000]
+example : StructOK sampleDefaults sampleDefaultsVal := by
+  refine ⟨by decide, by decide, by decide, ?_⟩
+  intro fv hfv
+  simp only [sampleDefaults, sampleDefaultsVal, objFVs, attrsOf, declFields, flatVals, isStruct,
+    fieldOfDecl, zipFG, List.mem_cons, List.not_mem_nil, or_false, Bool.false_and,
+    Bool.false_eq_true, if_false] at hfv
+  rcases hfv with rfl | rfl | rfl | rfl | rfl | rfl
+  · exact ⟨by decide, by decide, defaultExact_of_exact (by decide) _⟩
+  · exact ⟨by decide, by decide, defaultExact_of_exact (by decide) _⟩
+  · exact ⟨by decide, by decide, defaultExact_of_exact (by decide) _⟩
+  · exact ⟨by decide, by decide, defaultExact_of_exact (by decide) _⟩
+  · exact ⟨by decide, by decide, defaultExact_of_exact (by decide) _⟩
+  · exact ⟨by decide, by decide, fun h => by simp [Field.isDefault, Field.dlit, fieldVal, wrap, wrapScalar, litEq, fEq] at h⟩
+example : initHash (objFVs sampleDefaults sampleDefaultsVal) = [(.str "z", .flt 0x4004000000000000)] := by rfl
 
 /-- non-vacuity: `struct{ Base struct{ PID uint16 "value=>8080"; PL []string }; Name string; Addr *struct{Zip int32};
     Tags []struct{K string} ; Mix struct{M bool} (embedded, not first) }` with the parent's PID at its declared default -/
@@ -270,7 +343,7 @@ example : StructOK sampleNested sampleNestedVal := by
   simp only [sampleNested, sampleNestedVal, objFVs, attrsOf, declFields, flatVals, isStruct, Bool.and_self, if_true,
     fieldOfDecl, zipFG, List.cons_append, List.nil_append, List.mem_cons, List.not_mem_nil, or_false,
     Bool.false_eq_true, if_false] at hfv
-  rcases hfv with rfl | rfl | rfl | rfl | rfl | rfl <;> exact ⟨by decide, by decide⟩
+  rcases hfv with rfl | rfl | rfl | rfl | rfl | rfl <;> exact ⟨by decide, by decide, defaultExact_of_exact (by decide) _⟩
 example : (attrsOf sampleNested).map (·.name) = ["pID", "pL", "label", "addr", "tags", "mix"] := by decide
 example : initHash (objFVs sampleNested sampleNestedVal) =
     [(.str "pL", .arr [.str "x"]), (.str "label", .str "n"), (.str "tags", .arr [.obj (.scons "K" {} .string .snil) false (.st [.str "k"])]),
